@@ -146,6 +146,7 @@ class ChoiceSet(set):
 
 
 SETORDER_PROGRAMS = [
+    "value = f'{b\"bytes\"!r} {len(b\"it's\")} {b\"\"} {b\"a\" + b\"b\"}'\nprint(value)\n",
     "def setup():\n    global first_conn, second_conn, third_conn\n    first_conn = 1\n    second_conn = 2\n    third_conn = 3\ndef use():\n    return first_conn + second_conn + third_conn\nprint(setup(), use())\n",
     "def reset():\n    global hits_count, miss_count\n    hits_count = miss_count = 0\ndef lookup(cache, key):\n    global hits_count, miss_count\n    if key in cache:\n        hits_count += 1\n        return cache[key]\n    miss_count += 1\nreset()\nprint(lookup({}, 1), hits_count, miss_count)\n",
     "def outer():\n    def inner():\n        nonlocal aa_value, bb_value, cc_value\n        aa_value, bb_value, cc_value = cc_value, aa_value, bb_value\n    aa_value, bb_value, cc_value = 1, 2, 3\n    inner()\n    return aa_value, bb_value, cc_value\nprint(outer())\n",
@@ -174,7 +175,8 @@ def check_setorder(part, nparts, res):
     rutil = importlib.import_module('python_minifier.rename.util')
     ast_compare = importlib.import_module('python_minifier.ast_compare')
     resolve_names = importlib.import_module('python_minifier.rename.resolve_names')
-    mods = [mapper, renamer, bind_names, rutil, ast_compare, resolve_names]
+    import python_minifier.f_string  # noqa: F401
+    mods = [m for n, m in sorted(sys.modules.items()) if m is not None and (n == 'python_minifier' or n.startswith('python_minifier.'))]
     for i, (label, src) in enumerate(setorder_cases()):
         if i % nparts != part:
             continue
